@@ -138,6 +138,16 @@ def run_impl(binp, scenarios):
     return [b.split("\n") for b in blocks]
 
 
+def normalize_impl(lines):
+    """drop the driver-only trailing field (specification-level tracking flag) of read / track lines"""
+    out = []
+    for l in lines:
+        if l.startswith("read ") or l.startswith("track "):
+            l = l.rsplit(" ", 1)[0]
+        out.append(l)
+    return out
+
+
 def run_model(pid, scenarios, chunk=20, nfiles=32):
     exprs = []
     for i in range(0, len(scenarios), chunk):
@@ -160,7 +170,8 @@ def run_model(pid, scenarios, chunk=20, nfiles=32):
 def parse_snap(line):
     """'snap n=4 | 0:1:0:d=[]:s=0/0:0 | 3:0' -> {"n": 4, "nodes": {name: {...}}}"""
     parts = line.split(" | ")
-    n = int(parts[0].split("=")[1])
+    head = dict(kv.split("=") for kv in parts[0].split(" ")[1:])
+    n = int(head["n"])
     nodes = {}
     for p in parts[1:]:
         f = p.split(":")
@@ -173,7 +184,7 @@ def parse_snap(line):
             nodes[name] = {"alive": True, "value": None if f[2] == "-" else int(f[2]),
                            "deps": [d for d in deps.split(",") if d], "dependents": int(sl), "dead_dependents": int(sd),
                            "dirty": f[5] == "1"}
-    return {"n": n, "nodes": nodes}
+    return {"n": n, "r": int(head.get("r", n)), "nodes": nodes}
 
 
 def split_steps(lines):
